@@ -1182,3 +1182,147 @@ def rehome(index, old_block, new_block):
     index[new_block] = syms
 '''
 round7._FIXTURE_EXPECT["GEN.overwritemerge"] = "rehome"
+
+
+@rule("C16.17", ["C16"], "leafFunctions is written only where a function is classified from its CFG (`_update_leaf_functions`)", 1)
+def c16_17(ctx: Ctx):
+    n = 0
+    for q, fi in sorted(ctx.repo.funcs.items()):
+        for st in walk_no_nested(fi.node):
+            if isinstance(st, (ast.Assign, ast.AugAssign)):
+                for t in (st.targets if isinstance(st, ast.Assign) else [st.target]):
+                    if isinstance(t, ast.Subscript) and "leaf_functions" in src(t.value):
+                        n += 1
+                        ctx.check(q == "rewriting.RewritingContext._update_leaf_functions", fi, st, f"`{src(st)[:60]}` in {q.split('.')[-1]}",
+                                  f"`{src(st)[:70]}` records a leaf verdict outside _update_leaf_functions: later contexts only classify functions that are *missing* from the table, so a verdict "
+                                  "written before the function's body exists (a freshly inserted stub marked 'not a leaf') is trusted for ever - a patch in that leaf function then gets no "
+                                  "red-zone skip", key=f"{q}::leaf-table-store")
+    if n < 1:
+        raise AnalysisError("no store into the leafFunctions table found")
+
+
+@rule("C10.15", ["C10", "C08", "C02", "C06"], "are_joinable refuses a join for the eleven reviewed reasons only", 11)
+def c10_15(ctx: Ctx):
+    fi = ctx.repo.func("_modify.join.are_joinable")
+    lin = linear(fi.node)
+    reviewed = {
+        "block types do not match", "blocks are not in the same byte interval", "blocks are not in a module", "block2 does not immediately follow block1",
+        "block2 has a required aligment", "block2 has symbols referring to it", "block1 has symbols referring to its end", "block1 has outgoing edges",
+        "block2 has incoming edges", "blocks are not in the same function", "block2 is the entry block of the function",
+    }
+    seen: Dict[str, int] = {}
+    for g in lin.stmts:
+        if isinstance(g.node, ast.Return) and isinstance(g.node.value, ast.Call) and g.node.value.args and isinstance(g.node.value.args[0], ast.Constant) and g.node.value.args[0].value is False:
+            why = g.node.value.args[1].value if len(g.node.value.args) > 1 and isinstance(g.node.value.args[1], ast.Constant) else src(g.node)
+            seen[why] = seen.get(why, 0) + 1
+            ctx.check(why in reviewed and seen[why] == 1, fi, g.node, f"refusal: {why}",
+                      f"a further refusal (`{why}`) was added: a refused join is not an error - _cleanup_modified_blocks falls back to remove_block for the empty block, which keeps only "
+                      "startproc/endproc/remember/restore and re-homes labels by the deletion rules, so CFI directives at offset 0 of a function-less block disappear although nothing was deleted",
+                      key=f"are_joinable::refusal::{why}::{seen[why]}")
+
+
+@rule("C20.14", ["C20", "C02", "C09"], "retarget_references hangs both reference trees of the source block under the target's start- or end-root on every path that retargets", 3)
+def c20_14(ctx: Ctx):
+    fi = ctx.repo.func("_modify.cache.ReferenceCache.retarget_references")
+    lin = linear(fi.node)
+    adds = [(g, c) for g, c in lin.all_calls() if src(c.func) == "target_ref.children.add"]
+    rets = [g for g in lin.stmts if isinstance(g.node, ast.Return)]
+    sel = [g for g in lin.stmts if isinstance(g.node, ast.Assign) and src(g.node.targets[0]) == "target_ref"]
+    if len(adds) < 2 or not sel:
+        raise AnalysisError("retarget_references: attachment of the two trees under target_ref not found")
+    first_add = min(g.index for g, _ in adds)
+    late = [r for r in rets if r.index > min(s.index for s in sel) - 50 and r.index < first_add and not lin.under(r, "not any(block.references)")]
+    ctx.check(not late and all(g.nest == 0 for g, _ in adds) and {src(c.args[0]) for _, c in adds} >= {"start_refs", "end_refs"}, fi, (late[0].node if late else adds[0][1]),
+              "both trees are attached, unconditionally, once the block is known to have references",
+              "a path leaves before (or without) `target_ref.children.add(start_refs/end_refs)`: the symbols were already made indirect (`symbol.referent = None`, filed under the source block's "
+              "nodes), and a shortcut that files them elsewhere ignores which of the two trees they sit in - an end-of-block label of a wholly deleted block comes back as an end-of-block label of "
+              "the next block instead of its start", key="retarget_references::both-trees-attached")
+    # the root is chosen by at_end: [1] for the end, [0] for the start
+    picks = {(src(g.node.value)[-3:], lin.under(g, "at_end")) for g in sel}
+    ctx.check(("[1]", True) in picks and any(p[0] == "[0]" and not p[1] for p in picks), fi, sel[0].node, "target root: end-root iff at_end", "the choice of the target root changed",
+              key="retarget_references::root-by-at_end")
+    ctx.ok(fi, fi.node, f"{len(rets)} return statement(s), the only one before the attachment is the no-references exit", key="retarget_references::returns")
+
+
+@rule("C02.8", ["C02", "C05", "C08", "C10"], "_cleanup_modified_blocks only removes an empty block after the join with its predecessor was refused", 1)
+def c02_8(ctx: Ctx):
+    fi = ctx.repo.func("_modify.edit._cleanup_modified_blocks")
+    lin = linear(fi.node)
+    joins = [g for g, c in lin.all_calls() if src(c.func) == "join_blocks" and g.loops]
+    rems = [g for g, c in lin.all_calls() if src(c.func) == "remove_block" and g.loops]
+    if len(joins) != 1 or not rems:
+        raise AnalysisError("_cleanup_modified_blocks: join/remove steps of the fixed-point loop not found")
+    early = [g for g in rems if g.index < joins[0].index]
+    ctx.check(not early, fi, (early or rems)[0].node, "inside the loop `join_blocks` is attempted before any `remove_block`",
+              "an empty block is removed without trying to join it back first: split_block parks a block's end-of-block labels on the empty remainder; a join returns them to the end of the "
+              "edited block, a removal slides them to the start of the *following* block - the same address until that block is deleted with retarget_to_proxy in the same apply(), after "
+              "which the edited block's end label refers to the external proxy", key="_cleanup_modified_blocks::join-before-remove")
+
+
+@rule("C17.13", ["C17", "C16", "C07"], "rendering a patch (`get_asm`) does not write to the patch object or its arguments: one object is rendered at many insertion points", 3)
+def c17_13(ctx: Ctx):
+    n = 0
+    for q, fi in sorted(ctx.repo.funcs.items()):
+        if fi.node.name != "get_asm" or fi.cls is None:
+            continue
+        n += 1
+        stores = [st for st in walk_no_nested(fi.node) if isinstance(st, (ast.Assign, ast.AugAssign))
+                  and any(isinstance(a, ast.Attribute) and isinstance(a.ctx, ast.Store) for t in (st.targets if isinstance(st, ast.Assign) else [st.target]) for a in ast.walk(t))]
+        ctx.check(not stores, fi, stores[0] if stores else fi.node, f"{q.split('.')[-2]}.get_asm writes no attribute",
+                  (f"`{src(stores[0])[:70]}` changes state that outlives this rendering: the same patch object is asked for its assembly at every insertion point and in later rewrites. A value "
+                   "parked on the object (an evaluated argument, a rendered text) is what the next site gets whenever the restore is skipped - a later argument callable raises or declines - "
+                   "or the state it was computed from has changed (a renamed symbol)") if stores else "", key=f"{q}::get_asm-pure")
+    if n < 3:
+        raise AnalysisError(f"only {n} get_asm methods found")
+
+
+@rule("C13.10", ["C13", "C12"], "every assembler error caught by the callback wrapper is reported to the diagnostic callback (which also records had_error) or re-raised", 1)
+def c13_10(ctx: Ctx):
+    outer = ctx.repo.func("assembler.assembler._convert_errors_and_return")
+    n = 0
+    for h in [x for x in ast.walk(outer.node) if isinstance(x, ast.ExceptHandler)]:
+        n += 1
+        body = h.body
+        # every `return` in the handler must come after an `issue_diagnostic(...)` test that guards it
+        bad = None
+        for st in body:
+            for r in [x for x in ast.walk(st) if isinstance(x, ast.Return)]:
+                guarded = isinstance(st, ast.If) and "issue_diagnostic" in src(st.test) and any(y is r for b in st.body for y in ast.walk(b))
+                if not guarded:
+                    bad = bad or r
+        ctx.check(bad is None and isinstance(body[-1], ast.Raise), outer, bad or h, "handler: `return error_ret` only after issue_diagnostic() accepted the error, otherwise re-raise",
+                  "an error is swallowed without going through issue_diagnostic: that call is also what sets `had_error`, which is reset on every assemble() - a later chunk that refers to the same "
+                  "unknown name produces no diagnostic, assemble() returns True and the instruction is silently dropped, although assembling the concatenated text is refused",
+                  key="_convert_errors_and_return::always-reported")
+    if n < 1:
+        raise AnalysisError("_convert_errors_and_return: exception handler not found")
+
+
+@rule("C20.15", ["C20", "C04"], "OffsetMapping accessors that take a default do not subscript the element table before the element is known to be there", 2)
+def c20_15(ctx: Ctx):
+    ci = ctx.repo.cls("_adt.offset_mapping.OffsetMapping")
+    n = 0
+    for name, m in sorted(ci.methods.items()):
+        a = m.node.args
+        has_default = any(x.arg == "default" for x in a.args + a.kwonlyargs) or (a.vararg is not None and a.vararg.arg in ("default", "args"))
+        if not has_default:
+            continue
+        n += 1
+        lin = linear(m.node)
+        bad = None
+        for g in lin.stmts:
+            for x in ast.walk(g.node) if not isinstance(g.node, (ast.If, ast.For, ast.While, ast.Try, ast.With, ast.FunctionDef)) else []:
+                if isinstance(x, ast.Subscript) and isinstance(x.ctx, ast.Load) and src(x.value) == "self._data":
+                    k = src(x.slice)
+                    ok = False
+                    try:
+                        ok = lin.under(g, f"{k} in self._data")
+                    except Exception:
+                        pass
+                    if not ok:
+                        bad = bad or (g, x)
+        ctx.check(bad is None, m, bad[0].node if bad else m.node, f"OffsetMapping.{name}: no unguarded `self._data[...]` ahead of the default",
+                  (f"`{src(bad[1])}` is evaluated before the default is considered: for an Offset whose element was never stored the subscript raises KeyError, so `{name}(Offset(e, d), default)` "
+                   "raises instead of returning the default - unlike a dict of dicts and unlike every other accessor of the class") if bad else "", key=f"OffsetMapping.{name}::default-before-subscript")
+    if n < 2:
+        raise AnalysisError(f"only {n} OffsetMapping accessors with a default found")
